@@ -231,8 +231,29 @@ def probes(ctx) -> None:
         ctx.check(len(miss) == 1 and ('self.explicit', True) in cfg.cguards(miss[0], h, siblings=True), 'R-PROBE', load, 'a missing explicit path is the missing-provider error', h, key='Path.load:explicit')
 
 
+def references(ctx) -> None:
+    """A provider class is referenced by exactly what identifies it: (module, *qualified* name) - the same two attributes the
+    class hash is made of - so that inner/local classes are told apart and a class registered under its own reference is found
+    under the textual ``module:Outer.Inner`` form; abstractness is decided by inspect.isabstract on the class itself (it also
+    handles a class still under construction, when __init_subclass__ runs before ABCMeta has set __abstractmethods__)."""
+    prog = ctx.prog
+    new = prog.func(f'{PROVIDER}:Reference.__new__')
+    v = new.param_names[1]
+    shared.stmt_under(ctx, 'C20.reference', new, f'module = {v}.__module__', [(f'isinstance({v}, str)', False)], 'a class is referenced by its own module', 'Reference:module', inlined=False)
+    shared.stmt_under(ctx, 'C20.reference', new, f'qualname = {v}.__qualname__', [(f'isinstance({v}, str)', False)], 'and by its qualified name (inner classes keep their outer scope)', 'Reference:qualname', inlined=False)
+    shared.stmt_under(ctx, 'C20.reference', new, 'return Qualifier(module, qualname)', [], 'the qualifier is (module, qualname) in field order', 'Reference:qualifier', inlined=False)
+    mh = prog.func(f'{PROVIDER}:Meta.__hash__')
+    ctx.check('cls.__module__' in core.src(mh.node) and 'cls.__qualname__' in core.src(mh.node), 'C20.reference', mh, 'the provider class identity is made of the same two attributes', mh.node, key='Meta.__hash__')
+    ia = prog.func(f'{PROVIDER}:isabstract')
+    c = ia.param_names[0]
+    rets = [r for r in core.walk_local(ia.node) if isinstance(r, ast.Return)]
+    ok = len(rets) == 1 and isinstance(rets[0].value, ast.BoolOp) and isinstance(rets[0].value.op, ast.Or) and any(core.src(x) == f'inspect.isabstract({c})' for x in rets[0].value.values)
+    ctx.check(ok, 'C20.reference', ia, 'a provider is abstract when inspect.isabstract says so for the class itself (or for one of its inner classes)', ia.node, key='isabstract')
+
+
 def run(ctx) -> None:
     from . import C08
+    references(ctx)
 
     C08.eqhash_agreement(ctx, ('forml.provider', 'forml.setup'), floor=3)
     probes(ctx)
